@@ -2,8 +2,12 @@ package main
 
 import (
 	"bytes"
+	"encoding/json"
 	"fmt"
+	"os"
+	"os/exec"
 	"strings"
+	"sync"
 
 	"github.com/goplus/xgo/ast"
 	"github.com/goplus/xgo/parser"
@@ -40,7 +44,14 @@ func roundTrip(t *syntree.Tree, ctx string) (r rtResult) {
 		return rtResult{stage: "build", err: err.Error()}
 	}
 	var buf bytes.Buffer
-	if err := printer.Fprint(&buf, token.NewFileSet(), node); err != nil {
+	var what any = node
+	if st, ok := node.(ast.Stmt); ok {
+		// a ForPhraseStmt also satisfies ast.Expr (embedded *ForPhrase), and printer.Fprint tests ast.Expr first and
+		// ends in log.Fatalf (see fprintProbe / signature print-fatal:ForPhraseStmt); statements are therefore handed
+		// over as a one-element statement list, which the printer supports as well
+		what = []ast.Stmt{st}
+	}
+	if err := printer.Fprint(&buf, token.NewFileSet(), what); err != nil {
 		return rtResult{stage: "print-panic", err: err.Error()}
 	}
 	r.text = buf.String()
@@ -210,6 +221,10 @@ descend:
 		// one signature per root cause: a lambda used as an operand is never parenthesised by the
 		// printer, whatever the parent; otherwise the slot whose child lost its parentheses
 		if strings.HasPrefix(orig.K, "LambdaExpr") && !strings.HasPrefix(s.parent.K, "LambdaExpr") {
+			if lambdaFreeSlot(s.parent, s.field) {
+				// a slot the printer prints at the lowest precedence but the parser reads without lambdas
+				return class + ":element-LambdaExpr", detail
+			}
 			return class + ":operand-LambdaExpr", detail
 		}
 		// `x?:d` is a unary-level expression; as operand of a postfix operator it needs parentheses, whatever the operator
@@ -221,6 +236,9 @@ descend:
 	// no single slot repairs it: several lambda operands at once?
 	for _, s := range slots(cur) {
 		if strings.HasPrefix(s.holder.C[s.idx].K, "LambdaExpr") && !strings.HasPrefix(s.parent.K, "LambdaExpr") {
+			if lambdaFreeSlot(s.parent, s.field) {
+				return "noparen:element-LambdaExpr", detail
+			}
 			return "noparen:operand-LambdaExpr", detail
 		}
 	}
@@ -267,9 +285,51 @@ func scanSpellings(text string) []string {
 	return out
 }
 
+// fprintProbe: printer.Fprint(node) for a single tree, run in a child process (`synh fprintprobe`) because the
+// defect it looks for ends the process with log.Fatalf.
+func runFprintProbe() {
+	var t syntree.Tree
+	if err := json.NewDecoder(os.Stdin).Decode(&t); err != nil {
+		os.Exit(3)
+	}
+	node, err := syntree.Build(&t)
+	if err != nil {
+		os.Exit(3)
+	}
+	var buf bytes.Buffer
+	if err := printer.Fprint(&buf, token.NewFileSet(), node); err != nil {
+		fmt.Fprintln(os.Stderr, err)
+		os.Exit(4)
+	}
+	os.Stdout.Write(buf.Bytes())
+}
+
+var (
+	probeOnce   sync.Once
+	probeFatal  bool
+	probeOutput string
+)
+
+// fprintFatal reports (once per run) whether printer.Fprint on a bare *ast.ForPhraseStmt kills the process.
+func fprintFatal(t *syntree.Tree) (bool, string) {
+	probeOnce.Do(func() {
+		in, _ := json.Marshal(t)
+		cmd := exec.Command(os.Args[0], "fprintprobe")
+		cmd.Stdin = bytes.NewReader(in)
+		var out, errb bytes.Buffer
+		cmd.Stdout, cmd.Stderr = &out, &errb
+		if err := cmd.Run(); err != nil && strings.Contains(errb.String(), "unreachable") {
+			probeFatal, probeOutput = true, strings.TrimSpace(errb.String())
+		}
+	})
+	return probeFatal, probeOutput
+}
+
 func runC22() {
 	cases := hlib.ReadAllCases[Case]()
 	results := make([]hlib.Result, len(cases))
+	var extra []hlib.Result
+	var extraMu sync.Mutex
 	hlib.Parallel(len(cases), 8, func(i int) {
 		c := &cases[i]
 		res := hlib.Result{Idx: i, V: "ok"}
@@ -280,6 +340,24 @@ func runC22() {
 			res.V, res.Detail = "skip", "model: not parseable"
 			results[i] = res
 			return
+		}
+		if c.NoDom {
+			// not a well-formed paren-free tree: a composite literal directly in a control clause needs its
+			// ParenExpr in the tree (go/ast convention), the printer is not expected to invent it
+			res.V, res.Detail = "skip", "composite literal directly in a control clause"
+			results[i] = res
+			return
+		}
+		if c.T.K == "ForPhraseStmt" {
+			if fatal, msg := fprintFatal(c.T); fatal {
+				extraMu.Lock()
+				if len(extra) == 0 {
+					extra = append(extra, hlib.Result{Idx: i, V: "viol", Sig: "print-fatal:ForPhraseStmt",
+						Detail: "printer.Fprint(w, fset, *ast.ForPhraseStmt) ends the process: " + msg + " [tree " + c.T.String() + "]",
+						Input:  map[string]any{"tree": c.T.String()}})
+				}
+				extraMu.Unlock()
+			}
 		}
 		r := roundTrip(c.T, c.Ctx)
 		res.Input = map[string]any{"tree": c.T.String(), "printed": r.text}
@@ -308,6 +386,9 @@ func runC22() {
 		results[i] = res
 	})
 	for _, r := range results {
+		hlib.Emit(r)
+	}
+	for _, r := range extra {
 		hlib.Emit(r)
 	}
 }
@@ -400,4 +481,23 @@ func leftEdgeBrace(t *syntree.Tree) bool {
 			return t != top && ((t.K == "CompositeLit" && t.C[0].K == "Nil") || (t.K == "ComprehensionExpr" && t.A == "{"))
 		}
 	}
+}
+
+// lambdaFreeSlot: slots that are no operator operands but are parsed with lhs = true / as binary
+// expressions, so that a lambda needs parentheses there (composite literal elements and keys, range
+// bounds, conditions, expression statements).
+func lambdaFreeSlot(parent *syntree.Tree, field string) bool {
+	switch parent.K {
+	case "CompositeLit":
+		return field == "Elts"
+	case "KeyValueExpr":
+		return field == "Key"
+	case "ComprehensionExpr":
+		return field == "Elt" && parent.A == "{"
+	case "RangeExpr", "ExprStmt", "IncDecStmt":
+		return true
+	case "ForPhrase":
+		return field == "Cond"
+	}
+	return false
 }
